@@ -96,14 +96,16 @@ def run(ctx):
     ctx.prove()
     run_l1(ctx, ctx.n(100, 4000), l1_monitor, THEOREMS, need=("complete_run", "fail_workflow", "tick_TickCancelRun", "tick_TickTimeout"))
     modes = ["result", "step_fail", "policy_raises", "pred_raises", "other_return", "stop_race", "cancel", "timeout",
-             "finally_publish"]
-    fails, facts = run_l2(ctx, [S.exits, S.exits, S.exits, S.failflow, S.fanout], ctx.n(220, 5000), l2_monitor,
+             "finally_publish", "user_policy_object"]
+    fails, facts = run_l2(ctx, [S.exits, S.exits, S.exits, S.failflow, S.fanout], ctx.n(240, 5000), l2_monitor,
                           need=tuple(("mode_" + m, 3) for m in modes) + (("runs_ended", 100),))
     known = [f for f in fails if f["why"].startswith(K_CANCEL_PUBLISH)]
     other = [f for f in fails if not f["why"].startswith(K_CANCEL_PUBLISH)]
     if known:
         ctx.finding(K_CANCEL_PUBLISH, known[0]["why"], dict(kind="implementation-monitor/L2", input=known[0], occurrences=len(known)))
     report_l2(ctx, other)
+    from props._engine_common import run_runnerdiff
+    run_runnerdiff(ctx, ctx.n(60, 1500), 'C04_exit_freezes_the_run / C04_nothing_published_after_exit')
 
 
 def replay(ctx, path):
